@@ -17,8 +17,8 @@ def run(chk):
                 "bit (draw bookkeeping); (c) every grain matrix is orthonormal with determinant +1, normalised sizes sum to 1, "
                 "fixed sizes are returned as given, random compositions lie within the bounds of their composition. "
                 "non-trivial = a query that consumed draws")
-    chk.assumptions = ["std::mt19937 and std::uniform_real_distribution are not modelled: the tape of draws for a seed is produced by "
-                       "the harness with the same engine",
+    chk.assumptions = ["std::mt19937 and std::uniform_real_distribution are modelled (coq/Mt19937.v): the model draws from its own engine, and "
+                       "its stream is compared draw by draw with the implementation's for every seed used",
                        "'different seeds give different draws' is a property of mt19937: searched, not proved"]
     chk.prove()
     common.build_repo()
@@ -126,6 +126,29 @@ def run(chk):
     impl, model = cs.run()
     chk.evaluations = len(impl)
     bad = chk.correspond(impl, model, cs, max_ulp=0)
+    # the engine itself: the model's mt19937 + generate_canonical stream (coq/Mt19937.v) against std::mt19937 +
+    # std::uniform_real_distribution<>(0,1), draw by draw, for every seed used above and a few edge seeds
+    seeds = sorted(cs.seeds_used | {0, 1, 5489, 4294967295, 4294967296 + 17})
+    ndraw = 3000 if quick else 30000
+    body = "".join("\nlet () = out_str (String.concat \" \" (\"ok\" :: List.map (fun x -> Printf.sprintf \"%%h\" x) (mt_tape_list n (n_of_int %d) (nat_of_int %d))))\n"
+                   % (sd % 4294967296, ndraw) for sd in seeds)
+    mstreams = common.run_model(body, tag="c15mt")
+    istreams = common.run_probe(["draws %d %d" % (sd, ndraw) for sd in seeds])
+    ndiff = 0
+    for sd, ms, is_ in zip(seeds, mstreams, istreams):
+        a = [float.fromhex(x) for x in ms.split()[1:]]
+        b = common.parse_vec(is_) or []
+        chk.corr["cases"] += 1
+        chk.evaluations += 1
+        if len(a) == ndraw and a == list(b):
+            chk.corr["agree"] += 1
+            chk.corr["bit_exact"] += 1
+        else:
+            chk.corr["disagreements"] += 1
+            ndiff += 1
+            k = next((i for i, (x, y) in enumerate(zip(a, b)) if x != y), min(len(a), len(b)))
+            bad.append({"kind": "engine", "seed": sd, "first differing draw": k, "model": a[k:k + 3], "implementation": list(b[k:k + 3])})
+    chk.counters["mt19937 streams compared (seeds x draws)"] = "%d x %d" % (len(seeds), ndraw)
     for ia, ib, gm, ci, k in line_plan:
         v = common.parse_vec(impl[ia])
         if impl[ia] != impl[ib]:
@@ -205,6 +228,10 @@ def run(chk):
         chk.violation(what, d)
     if bad and not viol:
         for i in bad[:3]:
+            if isinstance(i, dict):
+                chk.violation("correspondence Mt19937.v <-> std::mt19937 / uniform_real_distribution broken (seed %d, draw %d)"
+                              % (i["seed"], i["first differing draw"]), i, found_input=False)
+                continue
             dsc = cs.describe(i)
             dsc["impl"], dsc["model"] = impl[i], model[i]
             chk.violation("correspondence Features.v (random models, draw bookkeeping) <-> implementation broken", dsc, found_input=False)
